@@ -43,6 +43,63 @@ func c11R4(c *Ctx, r *Report) {
 	isNumCoercer := func(info *types.Info, n ast.Node) bool {
 		return nodeCalls(info, n, fns["castValue"].Obj) != nil || (fns["widenNumericValue"].Obj != nil && nodeCalls(info, n, fns["widenNumericValue"].Obj) != nil) || nodeCalls(info, n, fns["coerceValueForAssign"].Obj) != nil
 	}
+	// coercing wrappers: a builder method that converts to a type it receives as a parameter on every path
+	// to a value-returning return (returns of mir.InvalidValue give up; a string concatenation yields a new
+	// string, there is no number to widen). A call to such a method converts like the helpers do.
+	directNumCoercer := isNumCoercer
+	concat := c.LookupFn(pkgMIRGen, "(*functionBuilder).emitStringConcat")
+	wrappers := []*types.Func{}
+	for _, w := range c.AllFns(pkgMIRGen) {
+		sig := w.Obj.Type().(*types.Signature)
+		if sig.Recv() == nil || sig.Results().Len() != 1 || namedOf(sig.Results().At(0).Type()) == nil || namedOf(sig.Results().At(0).Type()).Obj().Name() != "ValueID" {
+			continue
+		}
+		winfo := w.Info()
+		toParam := false
+		for _, cl := range callsIn(w.Decl.Body, false) {
+			if isCallTo(winfo, cl, fns["coerceValueForAssign"].Obj) && len(cl.Args) == 4 {
+				if o := objOf(winfo, cl.Args[2]); o != nil && isParamOf(w, o) {
+					toParam = true
+				}
+			}
+		}
+		if !toParam || w.Obj == fns["coerceValueForAssign"].Obj {
+			continue
+		}
+		nRet := 0
+		hits := mustFlow(c.CFG(w), FlowSpec{
+			Gate: func(n ast.Node) bool { return directNumCoercer(winfo, n) },
+			Target: func(n ast.Node) bool {
+				ret, ok := n.(*ast.ReturnStmt)
+				if !ok || len(ret.Results) != 1 {
+					return false
+				}
+				if sel, ok := ret.Results[0].(*ast.SelectorExpr); ok && sel.Sel.Name == "InvalidValue" {
+					return false
+				}
+				if cl, ok := ret.Results[0].(*ast.CallExpr); ok && concat != nil && isCallTo(winfo, cl, concat.Obj) {
+					return false
+				}
+				nRet++
+				return true
+			},
+		})
+		if nRet > 0 && len(hits) == 0 {
+			wrappers = append(wrappers, w.Obj)
+			r.OK(rule, w.Name(), "coercing wrapper: converts to its type parameter before every value it returns", c.pos(w.Decl.Pos()), "calls to it count as a numeric coercion")
+		}
+	}
+	isNumCoercer = func(info *types.Info, n ast.Node) bool {
+		if directNumCoercer(info, n) {
+			return true
+		}
+		for _, w := range wrappers {
+			if nodeCalls(info, n, w) != nil {
+				return true
+			}
+		}
+		return false
+	}
 	isCoercer := func(info *types.Info, n ast.Node) bool {
 		// boxInterfaceValue is the conversion of the interface-typed positions (nothing numeric to widen there)
 		return isNumCoercer(info, n) || nodeCalls(info, n, fns["boxInterfaceValue"].Obj) != nil
